@@ -272,7 +272,7 @@ pub fn valid_msg(rng: &mut Rng, m: &Model, o: &MsgOpts) -> Msg {
 
 pub const SYNTAX_SHAPES: &[&str] = &[
     "!", "FOO!", "FOO 1 2", "FOO ,", "FOO 1,", "FOO::BAR", "1FOO", "FOO 1,,2", "FOO @", "SYST:", "FOO &",
-    "FOO #HZZ", "FOO 1e", "FOO 1.", "\"str\"", "FOO??", "FOO ?", "*", "**RST", "FOO #Q9", "FOO #B2", "= 1",
+    "FOO #HZZ", "FOO 1e", "\"str\"", "FOO??", "FOO ?", "*", "**RST", "FOO #Q9", "FOO #B2", "= 1",
 ];
 
 /// the declaration `path` (compound, spelled) with the same kind exists?
